@@ -49,9 +49,13 @@ package types
 // ('A' and 'Z' are mandatory and can be neither added nor removed); the result of an accepted change on a
 // well-formed base is well-formed again (A first, Z last) and its middle parts are exactly base's middle parts
 // plus / minus the named ones, in canonical (alphabetical) order without repetition. The base is not written.
-//@ func ApplyAuditLogParts props C19,C07
+//@ func ApplyAuditLogParts props C19,C07,C06
 //@   requires OrderedPartsInit()
 //@   modifies nothing
+// C06: the base value is the WAF-wide default every transaction starts from (newTransaction hands it out without a
+// copy): a per-transaction change must leave it byte for byte as it was and return a slice of its own
+//@   ensures baseKept: forall j int :: 0 <= j && j < len(base) ==> base[j] == old(base[j])
+//@   ensures ownResult: isDelta(modification) && isnil(result1) ==> cap(result0) == 0 || fresh(result0)
 //@   ensures empty: modification == "" ==> !isnil(result1)
 //@   ensures absolute: len(modification) >= 1 && !isDelta(modification) ==> (isnil(result1) <==> WellFormedStr(modification))
 //@   ensures absoluteSame: len(modification) >= 1 && !isDelta(modification) && isnil(result1) ==>
